@@ -683,4 +683,40 @@ theorem clean_lang (G G' : TT S T) (hU : noUnknownKey G = true) (fuel : Nat) (h 
       have := clean_sound G G' fuel h t _ _ w hg'
       rw [hg] at this; cases this
 
+/-- the same for `clean()` as it is now (8ba7791): a table whose start symbol has no rule becomes
+    the empty table, which has the same (empty) language -/
+theorem cleanFixed_lang (G G' : TT S T) (hU : noUnknownKey G = true) (fuel : Nat) (h : cleanFixed G fuel = .ok G')
+    (t : Prog) : inLang G' t = inLang G t := by
+  unfold cleanFixed at h
+  by_cases hc : AList.contains G.start G.rules = true
+  · simp only [hc, if_true] at h
+    exact clean_lang G G' hU fuel h t
+  · simp only [hc, Bool.false_eq_true, if_false, Res.ok.injEq] at h
+    subst h
+    have hn : AList.lookup G.start G.rules = none := by
+      unfold AList.contains at hc
+      cases hl : AList.lookup G.start G.rules with
+      | none => rfl
+      | some r => simp [hl] at hc
+    cases t with
+    | node f kids =>
+      have e : ((G.start.1, G.start.2.1).1, ((G.start.1, G.start.2.1).2, G.start.2.2)) = G.start := rfl
+      simp [inLang, run, e, TT.rule?, AList.lookup, hn]
+
+omit [DecidableEq S] [DecidableEq T] in
+/-- the non-terminals of a product have the types of the left factor's -/
+theorem mulRaw_noUnknown {U V : Type} [DecidableEq U] [DecidableEq V] (G1 : TT S T) (G2 : TT U V)
+    (h : noUnknownKey G1 = true) : noUnknownKey (mulRaw G1 G2) = true := by
+  unfold noUnknownKey at h ⊢
+  rw [List.all_eq_true] at h ⊢
+  intro e he
+  simp only [mulRaw, List.mem_flatMap, List.mem_filterMap] at he
+  obtain ⟨e1, he1, e2, _, hh⟩ := he
+  by_cases hty : e1.1.1 = e2.1.1
+  · simp only [hty, if_true, Option.some.injEq] at hh
+    subst hh
+    have := h e1 he1
+    simpa [hty] using this
+  · simp [hty] at hh
+
 end PS.T
